@@ -23,7 +23,8 @@ RUNTIME_PY = "/venv/bin/python"
 
 
 def _verify_one(args):
-    key, inline_only, budget_ms = args
+    key, inline_only, budget_ms = args[:3]
+    only = args[3] if len(args) > 3 else None
     try:
         import z3  # noqa
         from pyvc import verify as V
@@ -38,7 +39,8 @@ def _verify_one(args):
         summaries = {k: x for k, x in REGISTRY.items() if x.summarize}
         rep = V.verify_function(pkg, c, summaries, make_schema(),
                                 inline_only=set(inline_only) |
-                                set(getattr(c, "inline", ())))
+                                set(getattr(c, "inline", ())),
+                                only_scenarios=None if only is None else {only})
         from pyvc import solve
         return key, rep, dict(solve.STATS), None
     except Exception:
@@ -125,6 +127,8 @@ def _check(pid: str, tier: str, seed: int, t0: float) -> int:
     budget_ms = 8000 if tier == "quick" else 40000
     if tier == "thorough":
         os.environ["PYVC_BOTH_SOLVERS"] = "1"
+        # allocate: ratio lists of length 2 as well (one process per scenario)
+        os.environ.setdefault("PYVC_ALLOC_NMAX", "2")
     keys = list(dict.fromkeys(cfg.get("functions", [])))
     from pyvc.run import load_contracts
     from pyvc.contract import REGISTRY
@@ -141,18 +145,35 @@ def _check(pid: str, tier: str, seed: int, t0: float) -> int:
     early = {name: tpe.submit(run_standin, name, tier, seed, [])
              for name in cfg.get("standins", [])}
     # ---- deductive part (parallel, one process per function) --------------
-    nproc = max(1, min(10, len(keys)))
+    # contracts with long scenarios are verified one process per scenario
+    items = []
+    for k in keys:
+        if getattr(REGISTRY[k], "split_scenarios", False):
+            items += [(k, (), budget_ms, sc.name) for sc in REGISTRY[k].scenarios()]
+        else:
+            items.append((k, (), budget_ms))
+    nproc = max(1, min(14, len(items)))
     reports: Dict[str, Any] = {}
     stats_total: Dict[str, float] = {}
     errors: List[str] = []
     if keys:
         with mp.get_context("fork").Pool(nproc) as pool:
             for key, rep, stats, err in pool.imap_unordered(
-                    _verify_one, [(k, (), budget_ms) for k in keys]):
+                    _verify_one, items):
                 if err:
                     errors.append(f"{key}: {err}")
                     continue
-                reports[key] = rep
+                if key in reports:          # another scenario of the same function
+                    reports[key].obligations.update(rep.obligations)
+                    reports[key].paths += rep.paths
+                    reports[key].feasibility_checks += rep.feasibility_checks
+                    reports[key].wall_s = max(reports[key].wall_s, rep.wall_s)
+                    for ck, cv in rep.case_hits.items():
+                        reports[key].case_hits[ck] = \
+                            reports[key].case_hits.get(ck, 0) + cv
+                    reports[key].ledger |= rep.ledger
+                else:
+                    reports[key] = rep
                 for k, v in stats.items():
                     stats_total[k] = stats_total.get(k, 0) + v
     if errors:
